@@ -382,9 +382,13 @@ FormatterToSourceTree::comment(const XMLCh* const   data)
 
 void
 FormatterToSourceTree::cdata(
-            const XMLCh* const  /* ch */,
-            const size_type     /* length */)
+            const XMLCh* const  ch,
+            const size_type     length)
 {
+    // A tree has no CDATA sections (they are a matter of serialization),
+    // so the text of an element named by cdata-section-elements is
+    // character data like any other.
+    characters(ch, length);
 }
 
 
